@@ -521,6 +521,9 @@ class Lib:
 
     # --------------------------------------------------------------------------------- operators
     def binop(self, run, op, a, b, inplace=False):
+        if op == 'Add' and (isinstance(a, StrV) or isinstance(b, StrV) or
+                            (isinstance(a, OpaqueV) and a.what == 'str') or (isinstance(b, OpaqueV) and b.what == 'str')):
+            return OpaqueV(fresh('str', Opaque), 'str')        # message strings: content irrelevant
         if isinstance(a, (Num, BoolV)) and isinstance(b, (Num, BoolV)):
             return self.num_binop(run, op, a, b)
         if isinstance(a, Ref) and isinstance(b, (Ref, SeqV)) and op == 'Add' and \
@@ -657,6 +660,16 @@ class Lib:
             if op == 'NotEq':
                 return BoolV(a.term != b.term)
             raise Unsupported('arm-parametric: order comparison of arm labels')
+        if isinstance(a, Lazy) and isinstance(b, Lazy) and a.kind == b.kind == 'setof' and op in ('Eq', 'NotEq'):
+            sa, sb = self.as_seq(run, a.payload), self.as_seq(run, b.payload)
+            if sb is None and isinstance(b.payload, Lazy) and b.payload.kind == 'dictview':
+                sb = SeqV('A', run.deref(b.payload.payload[1]).keys, True)
+            if sa is None and isinstance(a.payload, Lazy) and a.payload.kind == 'dictview':
+                sa = SeqV('A', run.deref(a.payload.payload[1]).keys, True)
+            if sa is not None and sb is not None and sa.kind == sb.kind == 'A':
+                w = smt.bound('aset', Arm)
+                eq = z3.ForAll([w], T.amem(sa.term, w) == T.amem(sb.term, w))
+                return BoolV(eq if op == 'Eq' else z3.Not(eq))
         if isinstance(a, StrV) and isinstance(b, StrV) and op in ('Eq', 'NotEq'):
             return BoolV((a.s == b.s) == (op == 'Eq'))
         if isinstance(a, OptArmV) or isinstance(b, OptArmV):
